@@ -668,6 +668,9 @@ func (s *c18State) roundTripStatement(p *c18Payload, st parser.Statement, m c18M
 		if strings.HasSuffix(desc, "[name-needs-enclosure]") {
 			// one class whether the bare name fails to parse or parses to another kind of call
 			sig = "roundtrip:text:" + desc
+		} else if c18URLBeforeDelimiter(culprit, m) {
+			// one class whatever node holds the URL and whether the print is rejected or read as another URL
+			sig = "roundtrip:text:Url[separator-follows]"
 		}
 		s.violate(sig, fmt.Sprintf("%s [%s] parses; the %s node prints as %s; %s (found in statement %s, path %s)",
 			p.Shown, m, c18TypeName(culprit), c18Show(c18Text(culprit, false)), cf.msg, c18TypeName(st), path), p)
